@@ -14,7 +14,19 @@ import (
 
 // tvRun validates a corpus of generated packages (shape C). mode "subset": every case must be
 // accepted and equivalent; mode "lookalike": every case must be rejected or equivalent.
+// tvOpts selects what tvRun checks.
+type tvOpts struct {
+	Mode     string // "subset" or "lookalike"
+	Validate bool   // compare Go and GooseLang behaviour of every case
+	Census   string // "", "order" (C04: names, uniqueness, definition order), "errors" (C07: totality on the corpus), "all"
+}
+
 func tvRun(ctx *RunCtx, pkgs []*tv.Package, mode string) error {
+	return tvRunOpts(ctx, pkgs, tvOpts{Mode: mode, Validate: true})
+}
+
+func tvRunOpts(ctx *RunCtx, pkgs []*tv.Package, o tvOpts) error {
+	mode := o.Mode
 	d, err := tv.NewDriver(RepoRoot)
 	if err != nil {
 		return err
@@ -58,8 +70,36 @@ func tvRun(ctx *RunCtx, pkgs []*tv.Package, mode string) error {
 		for _, is := range issues {
 			switch is.Kind {
 			case "unknown-ident":
-				ctx.Inconcl = append(ctx.Inconcl, fmt.Sprintf("package %s: %s", p.Name, is))
+				if o.Validate {
+					ctx.Inconcl = append(ctx.Inconcl, fmt.Sprintf("package %s: %s", p.Name, is))
+				}
 			}
+		}
+		if o.Census != "" {
+			cis, err := tv.Census(p, tr, glp, issues)
+			if err != nil {
+				return err
+			}
+			for _, ci := range cis {
+				isOrder := strings.HasPrefix(ci.Label, "order/") || ci.Label == "census/distinct-names"
+				isErr := strings.HasPrefix(ci.Label, "errors/")
+				if (o.Census == "order" && isErr) || (o.Census == "errors" && isOrder) {
+					continue
+				}
+				// attribute to the case whose source contains the declaration, if any
+				var cc *tv.Case
+				for i := range p.Cases {
+					if ci.Decl != "" && declaredIn(p.Cases[i].Src, ci.Decl) {
+						cc = &p.Cases[i]
+						break
+					}
+				}
+				ctx.addTVViolation(p, cc, ci.Label, ci.Detail, tr, nil)
+			}
+			ctx.Extra["declarations_counted"] = intExtra(ctx, "declarations_counted") + len(glp.Defs)
+		}
+		if !o.Validate {
+			continue
 		}
 		prog, err := d.LoadSSA(p)
 		if err != nil {
@@ -178,6 +218,21 @@ func tvRun(ctx *RunCtx, pkgs []*tv.Package, mode string) error {
 	ctx.Extra["functions_rejected_by_goose"] = nrejected
 	ctx.Extra["functions_not_compared"] = nskipped
 	return nil
+}
+
+func intExtra(ctx *RunCtx, k string) int {
+	v, _ := ctx.Extra[k].(int)
+	return v
+}
+
+// declaredIn: does the Go source text declare name (func, method, type, const or var)?
+func declaredIn(src, name string) bool {
+	for _, pat := range []string{"func " + name + "(", ") " + name + "(", "type " + name + " ", "const " + name + " ", "var " + name + " "} {
+		if strings.Contains(src, pat) {
+			return true
+		}
+	}
+	return false
 }
 
 func firstLines(s string, n int) string {
